@@ -308,6 +308,7 @@ struct Agg {
 	found_keys: BTreeSet<(String, String)>,
 	known_suppressed: BTreeMap<String, u64>,
 	known_first: BTreeMap<String, Found>,
+	inconclusive_seeds: Vec<String>,
 	lib_panics: BTreeMap<String, u64>,
 	harness_errors: Vec<String>,
 	samples: Vec<Value>,
@@ -330,6 +331,9 @@ fn absorb(check: &Check, scen_idx: usize, seed: u64, params: &BTreeMap<String, u
 	*a.per_scen.entry(check.scens[scen_idx].name.to_string()).or_insert(0) += 1;
 	*a.strategies.entry(format!("{:?}", out.strategy).split('(').next().unwrap().to_string()).or_insert(0) += 1;
 	*a.ends.entry(format!("{:?}", out.end)).or_insert(0) += 1;
+	if out.end == End::StepLimit && a.inconclusive_seeds.len() < 3 {
+		a.inconclusive_seeds.push(format!("{} seed={seed} params={params:?}", check.scens[scen_idx].name));
+	}
 	for (k, v) in &out.probes {
 		*a.probes.entry(k.to_string()).or_insert(0) += v;
 	}
@@ -609,6 +613,7 @@ pub fn run_check(check: &Check, tier: &str) -> i32 {
 			"runs_per_strategy": a.strategies,
 			"run_endings": a.ends,
 			"inconclusive_runs": inconclusive,
+			"inconclusive_examples": a.inconclusive_seeds,
 			"probes_and_fault_counts": a.probes,
 			"library_panics_seen": a.lib_panics,
 			"determinism_rechecks": a.rechecked,
